@@ -1704,6 +1704,42 @@ func foldsHangupRaw(v ssa.Value, isRaw func(ssa.Value) bool, hupErr, both int64)
 	if !ok {
 		return false
 	}
+	// the test split in two (`e&ERR != 0 || e&HUP != 0`): every edge that carries the mask as the kernel gave it is
+	// reached only with all of the hang-up / error bits tested clear, and the other edges carry the widened mask
+	{
+		widened, rawOK, nRaw := 0, true, 0
+		for i, e := range ph.Edges {
+			if bo, ok := stripConv(e).(*ssa.BinOp); ok && bo.Op == token.OR {
+				if k, ok := constInt(bo.Y); ok && k&both == both && isRaw(bo.X) {
+					widened++
+					continue
+				}
+			}
+			if !isRaw(e) {
+				rawOK = false
+				continue
+			}
+			nRaw++
+			var clear int64
+			for _, l := range litsAt(ph.Block(), ph.Block().Preds[i]) {
+				op, x, y, isCmp := l.cmp()
+				if !isCmp || op != token.EQL || !isConstInt(y, 0) {
+					continue
+				}
+				if and, ok := stripConv(x).(*ssa.BinOp); ok && and.Op == token.AND {
+					if m, ok := constInt(and.Y); ok && isRaw(and.X) {
+						clear |= m
+					}
+				}
+			}
+			if clear&hupErr != hupErr {
+				rawOK = false
+			}
+		}
+		if widened > 0 && nRaw > 0 && rawOK {
+			return true
+		}
+	}
 	for i, e := range ph.Edges {
 		bo, ok := stripConv(e).(*ssa.BinOp)
 		if !ok || bo.Op != token.OR {
